@@ -464,6 +464,9 @@ class Analysis:
         cl = set(v["field"] for v in rq.by_kind("clone_field"))
         if len(cl) == 1 and None not in cl and rq.ret is not None and rq.ret[0] == "obj":
             C["RunningSetField"] = list(cl)[0]
+        # (a report built by walking a set of indices and looking the jobs up is not recognised as such: its operations need not
+        # sit next to the state writes, which is what the pairing rule looks for; it is judged as 'not a scan of the states')
+        if C["RunningSetField"] is not None:
             C["RunningQ"] = None
         else:
             C["RunningQ"] = query_class("query_jobs_running")
@@ -561,6 +564,8 @@ def forced_analysis(A, body, overrides, cfgd=None, args=None, state=None, prepar
     cfg = Config(label=cfgd.get("label", "FORCED"), opaque=cfgd.get("opaque", ()), cell_init=cfgd.get("cell_init"),
                  drain_kinds=cfgd.get("drain_kinds"), self_init=cfgd.get("self_init"))
     cfg.default_states = cfgd.get("default_states")
+    for fl in cfgd.get("flags", ()):
+        setattr(cfg, fl, True)
     I = Interp(A.facts, A.uni, A.layout, cfg)
     I.models = dict(I.models)
     for k, f in overrides.items():
